@@ -584,6 +584,7 @@ func init() {
 			rules.PO(rc, 4)
 			rules.SC(rc)
 			rules.CF(rc)
+			rules.CSF(rc)
 			rules.O11(rc, 1)
 			rules.EP(rc, nil, 100)
 			rules.LGuards(rc, "C19")
